@@ -160,6 +160,8 @@ pub struct Ctx {
     pub notes: BTreeMap<String, String>,
     pub inconclusive: Vec<String>,
     pub case_no: u64,
+    pub budget: u64,
+    pub budget_hit: bool,
 }
 
 pub const MAX_DIGESTS: usize = 400_000;
@@ -187,6 +189,11 @@ impl Ctx {
     // Start of one generated case. Returns false if the case is to be skipped (replay of another case).
     pub fn begin_case(&mut self) -> bool {
         self.case_no += 1;
+        // Operation budget (used for the interpreter legs): deterministic, counted in monitored comparisons.
+        if self.budget > 0 && self.checks >= self.budget {
+            self.budget_hit = true;
+            return false;
+        }
         match self.only_case {
             Some(c) => c == self.case_no,
             None => true,
@@ -265,6 +272,7 @@ impl Ctx {
         let _ = write!(s, "\"prop\":{},\"cfg\":{},\"part\":{},\"shard\":{},\"nshards\":{},\"seed\":{},\"tier\":{}",
             jstr(&self.prop), jstr(&self.cfg), jstr(&self.part), self.shard, self.nshards, self.seed,
             jstr(if self.quick() { "quick" } else { "thorough" }));
+        let _ = write!(s, ",\"budget\":{},\"budget_hit\":{}", self.budget, self.budget_hit);
         let _ = write!(s, ",\"evaluations\":{},\"checks\":{},\"distinct_local\":{},\"digest_overflow\":{},\"violations_total\":{}",
             self.evals, self.checks, self.digests.len(), self.digest_overflow, self.violations_total);
         s.push_str(",\"samples\":[");
